@@ -297,6 +297,14 @@ func inLoopDepth(b *ssa.BasicBlock, depth int) bool {
 	if inLoopLocal(b) {
 		return true
 	}
+	// a function a helper calls through a parameter: in a loop when that call is
+	if depth < maxHelperDepth && curProg != nil {
+		for _, ve := range curProg.valueEntries(b.Parent()) {
+			if inLoopLocal(ve.call.Block()) || inLoopDepth(ve.site.Block(), depth+2) {
+				return true
+			}
+		}
+	}
 	// a helper's block is in a loop when some call site of the helper is
 	if depth < maxHelperDepth && curProg != nil && curProg.inlinableHelper(b.Parent()) {
 		for _, s := range curProg.helperSites(b.Parent()) {
@@ -393,9 +401,16 @@ func pathSearch(fn *ssa.Function, start ssa.Instruction, target, block func(ssa.
 		}
 	}
 	seen := map[string]bool{}
+	if curProg != nil {
+		savedCtx := curProg.ctx
+		defer func() { curProg.ctx = savedCtx }()
+	}
 	for len(work) > 0 {
 		p := work[len(work)-1]
 		work = work[:len(work)-1]
+		if curProg != nil {
+			curProg.ctx = p.rets // the virtual call stack here
+		}
 		stopped := false
 		for i := p.i; i < len(p.b.Instrs); i++ {
 			in := p.b.Instrs[i]
@@ -530,4 +545,69 @@ func selectCaseBlock(sel *ssa.Select, k int) *ssa.BasicBlock {
 		}
 	}
 	return nil
+}
+
+// loopHeadLocal returns the header of the innermost natural loop of b's own
+// function that contains b, or nil.
+func loopHeadLocal(b *ssa.BasicBlock) *ssa.BasicBlock {
+	var best *ssa.BasicBlock
+	for _, h := range b.Parent().Blocks {
+		if !h.Dominates(b) {
+			continue
+		}
+		isHead := false
+		for _, pr := range h.Preds {
+			if h.Dominates(pr) && (pr == b || reachableBlocks(b, true)[pr]) {
+				isHead = true
+			}
+		}
+		if !isHead {
+			continue
+		}
+		if best == nil || best.Dominates(h) {
+			best = h
+		}
+	}
+	return best
+}
+
+// everyIteration: the instruction is executed on every iteration of the
+// innermost loop around it that runs to its back edge (an exit from the loop
+// -- return, break -- is not an iteration that skipped it; a `continue` past
+// it is). An instruction of a helper, or of a function the helper was given,
+// counts through its call when it lies on every path to that function's
+// return.
+func everyIteration(in ssa.Instruction) bool {
+	local := func(b *ssa.BasicBlock) (bool, bool) {
+		h := loopHeadLocal(b)
+		if h == nil {
+			return false, false
+		}
+		for _, pr := range h.Preds {
+			if h.Dominates(pr) && !b.Dominates(pr) {
+				return true, false
+			}
+		}
+		return true, true
+	}
+	if inL, ok := local(in.Block()); inL {
+		return ok
+	}
+	if curProg == nil {
+		return false
+	}
+	for _, ch := range curProg.chains(in) {
+		for k := 1; k < len(ch.sites); k++ {
+			if !ch.mustThrough(k) {
+				break
+			}
+			if inL, ok := local(ch.sites[k].Block()); inL {
+				if ok {
+					return true
+				}
+				break
+			}
+		}
+	}
+	return false
 }
